@@ -527,6 +527,20 @@ class Exec(object):
             hook = self.models.setattr_hook(self, path, obj, name, v)
             if hook is not None:
                 return hook
+            cls = obj.cls if isinstance(obj, VInst) else (type(obj.obj) if not isinstance(obj.obj, (type, types.ModuleType)) else None)
+            if isinstance(cls, type):
+                try:
+                    raw = inspect.getattr_static(cls, name)
+                except AttributeError:
+                    raw = None
+                if isinstance(raw, property):
+                    if raw.fset is None:
+                        return self.raise_(path, AttributeError, "can't set attribute %s" % name)
+                    fv = self.lift_obj(raw.fset)
+                    if isinstance(fv, VFunc):
+                        fv = VFunc(fv.node, fv.modname, fv.qualname, bound=obj, pyfunc=raw.fset)
+                        return [(p, r if isinstance(r, Raise) else NONE) for p, r in self.call(path, fv, [v], {})]
+                    raise Unsupported('property setter %s without source' % name)
             path.heap[('f', self.oid_of(obj), name)] = v
             return [(path, NONE)]
         hook = self.models.setattr_hook(self, path, obj, name, v)
